@@ -708,6 +708,11 @@ func ManyFractions(r *rand.Rand) []Frac {
 	return vs
 }
 
+// TinyValues are value lists whose exact tick count at T=960 rounds to 0 or is at most 2 ticks.
+var TinyValues = [][]Frac{
+	{{1, 4096}}, {{1, 2000}}, {{1, 5000}, {1, 6000}}, {{1, 1921}}, {{1, 1919}}, {{1, 960}}, {{1, 3840}, {1, 3840}}, {{1, 100000}}, {{2, 960}}, {{1, 640}},
+}
+
 // HalfwayValues are value lists whose exact tick count at T=960 is k+1/2.
 var HalfwayValues = [][]Frac{
 	{{1, 1920}, {1, 1}},
@@ -805,6 +810,7 @@ type GenOpts struct {
 	SimpleOnly     bool // only intervals expressible in degree text
 	BassProb       float64
 	Halfway        bool // allow halfway values
+	Tiny           bool // allow instances of (almost) no duration
 	TextSafe       bool // only texts that chord text can carry
 	NoSettings     bool
 	Symbols        []string
@@ -848,7 +854,9 @@ func RandPiece(r *rand.Rand, o GenOpts) Piece {
 			c.AltBass = r.Intn(2) == 0
 			in.Chord = c
 		}
-		if o.Halfway && r.Intn(8) == 0 {
+		if o.Tiny && r.Intn(12) == 0 {
+			in.Values = append([]Frac(nil), TinyValues[r.Intn(len(TinyValues))]...)
+		} else if o.Halfway && r.Intn(8) == 0 {
 			in.Values = append([]Frac(nil), HalfwayValues[r.Intn(len(HalfwayValues))]...)
 		} else {
 			in.Values = RandValues(r)
